@@ -125,6 +125,10 @@ func (sc scenario) build() (func(), func(*vsched.Exec) string, func() string) {
 		vsched.Quiesce("phaseA")
 		for i := 0; i < n; i++ {
 			if ws[i].pings() < 1 {
+				if strings.Contains(ws[i].pending.String(), "data: ping") {
+					msg = fmt.Sprintf("LOST client %d: its first event was written but never flushed to the browser", i)
+					return
+				}
 				msg = fmt.Sprintf("SETUP client %d did not ping in phase A", i)
 				return
 			}
